@@ -14,6 +14,7 @@ import (
 	"go.6river.tech/mmmbbb/ent"
 	"go.6river.tech/mmmbbb/ent/delivery"
 	"go.6river.tech/mmmbbb/ent/message"
+	"go.6river.tech/mmmbbb/ent/snapshot"
 	"go.6river.tech/mmmbbb/ent/subscription"
 	"go.6river.tech/mmmbbb/internal/sqltypes"
 )
@@ -86,30 +87,33 @@ func SnapName(s string) string {
 
 // Delivered is one element of a pull response as the client sees it.
 type Delivered struct {
-	ID       uuid.UUID
-	MsgID    uuid.UUID
-	Attempt  int
-	Payload  string
-	Attrs    map[string]string
-	Key      string
-	PubNs    int64
+	ID      uuid.UUID
+	MsgID   uuid.UUID
+	Attempt int
+	Payload string
+	Attrs   map[string]string
+	Key     string
+	PubNs   int64
 }
 
 // Result is what one executed operation looked like from outside (for the monitors).
 type Result struct {
-	Op        Op
-	T         int64 // clock before
-	TAfter    int64
-	Resp      string
-	Err       error
-	Delivered []Delivered
-	NumDL     int
-	Wakes     []uuid.UUID
-	Ids       []uuid.UUID // ids the op addressed (ack/nack/delay)
-	MsgIDs    []uuid.UUID // publish response
-	Stmts     []*Stmt
-	Before    map[uuid.UUID]*ent.Delivery
-	After     map[uuid.UUID]*ent.Delivery
+	Op                        Op
+	T                         int64 // clock before
+	TAfter                    int64
+	Resp                      string
+	Err                       error
+	Delivered                 []Delivered
+	NumDL                     int
+	Wakes                     []uuid.UUID
+	Ids                       []uuid.UUID // ids the op addressed (ack/nack/delay)
+	MsgIDs                    []uuid.UUID // publish response
+	Stmts                     []*Stmt
+	Before                    map[uuid.UUID]*ent.Delivery
+	After                     map[uuid.UUID]*ent.Delivery
+	SubsBefore, SubsAfter     map[uuid.UUID]*ent.Subscription
+	TopicsBefore, TopicsAfter map[uuid.UUID]*ent.Topic
+	Msgs                      map[uuid.UUID]*ent.Message // after
 }
 
 func errClass(err error) string {
@@ -152,7 +156,9 @@ func (w *World) Resolve(r Ref) uuid.UUID {
 		return uuid.Nil
 	}
 	for _, m := range ms {
-		var p struct{ N *int `json:"n"` }
+		var p struct {
+			N *int `json:"n"`
+		}
 		if json.Unmarshal(m.Payload, &p) == nil && p.N != nil && *p.N == r.N {
 			d, err := w.Client.Delivery.Query().Where(delivery.SubscriptionID(sub.ID), delivery.MessageID(m.ID)).First(w.Ctx)
 			if err == nil {
@@ -259,14 +265,16 @@ func (w *World) run(a interface {
 func (w *World) Exec(op Op) *Result {
 	res := &Result{Op: op, T: w.Now()}
 	if w.lastDels == nil {
-		w.lastDels = w.snapDeliveries()
+		w.Dump()
 	}
 	res.Before = w.lastDels
+	res.SubsBefore, res.TopicsBefore = w.lastSubs, w.lastTopics
 	if op.K == "advance" {
 		// nothing runs concurrently in a sequential history: the tables cannot change
 		line := w.execInner(op, res)
 		res.TAfter = w.Now()
 		res.After = res.Before
+		res.SubsAfter, res.TopicsAfter, res.Msgs = w.lastSubs, w.lastTopics, w.lastMsgs
 		w.Lines = append(w.Lines, line+" exp=ok wk=")
 		return res
 	}
@@ -290,6 +298,7 @@ func (w *World) Exec(op Op) *Result {
 	res.TAfter = w.Now()
 	dump := w.Dump() // refreshes lastDels
 	res.After = w.lastDels
+	res.SubsAfter, res.TopicsAfter, res.Msgs = w.lastSubs, w.lastTopics, w.lastMsgs
 	if line != "" {
 		line = w.finishLine(line, op, res)
 		w.Lines = append(w.Lines, line)
@@ -449,6 +458,22 @@ func (w *World) execInner(op Op, res *Result) string {
 			res.Resp = fmt.Sprintf("ok:%d,%d", r.NumAcked, r.NumDeAcked)
 		}
 		return hdr("seek_snap") + fmt.Sprintf(" sub=%s snap=%s", Enc(SubName(op.Sub)), Enc(SnapName(op.Snap)))
+	case "delete_snap":
+		n, err := w.Client.Snapshot.Delete().Where(snapshot.Name(SnapName(op.Snap))).Exec(w.Ctx)
+		if err == nil && n == 0 {
+			err = actions.ErrNotFound
+		}
+		res.Err, res.Resp = err, errClass(err)
+		return hdr("delete_snap") + " name=" + Enc(SnapName(op.Snap))
+	case "set_delay":
+		// what controllers/delay-injector.go PutDelay does inside its transaction
+		n, err := w.Client.Subscription.Update().SetDeliveryDelay(sqltypes.Interval(op.D)).
+			Where(subscription.Name(SubName(op.Sub)), subscription.DeletedAtIsNil()).Save(w.Ctx)
+		if err == nil && n == 0 {
+			err = actions.ErrNotFound
+		}
+		res.Err, res.Resp = err, errClass(err)
+		return hdr("set_delay") + fmt.Sprintf(" sub=%s d=%d", Enc(SubName(op.Sub)), op.D)
 	case "snapshot":
 		a := actions.NewCreateSnapshot(actions.CreateSnapshotParams{SubscriptionName: SubName(op.Sub), Name: SnapName(op.Snap), Labels: op.Labels})
 		err := w.run(a)
@@ -589,5 +614,3 @@ func (w *World) execPull(op Op, res *Result, hdr func(string) string) string {
 	return hdr("pull") + fmt.Sprintf(" sub=%s max=%d maxbytes=%d strict=%s wait=1 cands=%s",
 		Enc(SubName(op.Sub)), op.Max, maxBytes, boolStr(op.Strict), IdList(cands))
 }
-
-var _ = sqltypes.Interval(0)
